@@ -37,7 +37,11 @@ def mk_kvs(sdim, ps, ns, tag='kv'):
 
 
 def R(a, shape):
-    return np.asarray(a, dtype=object).reshape(shape)
+    a = np.asarray(a, dtype=object)
+    try:
+        return a.reshape(shape)
+    except ValueError:
+        return a        # wrong number of entries: the comparison with the reference then fails on the shape
 
 
 # =========================================================================================== routes
@@ -797,6 +801,26 @@ comp = geometry.ComposedFunction(g2, g1); nd = [0.4, 0.7]; v = ev(g1, nd)
 attempt('ComposedFunction', lambda: close(ev(comp, nd), ev(g2, [v[1], v[0]])))
 g3 = mk('bspline', 3, 3, seed=5).scale(0.9); g4 = mk('bspline', 3, 2, seed=6); comp3 = geometry.ComposedFunction(g4, g3); nd3 = [0.3, 0.5, 0.7]; v3 = ev(g3, nd3)
 attempt('ComposedFunction 3D', lambda: close(ev(comp3, nd3), ev(g4, [v3[2], v3[1], v3[0]])))
+# restricted support -> generic boundary function (values, tangential Jacobian, full Jacobian)
+for kind_ in ('bspline', 'nurbs'):
+    for sdim in (2, 3):
+        f = mk(kind_, sdim, 2, seed=8)
+        f.support = tuple((0.1 + 0.05 * d, 0.8 - 0.05 * d) for d in range(sdim))
+        for axis in range(sdim):
+            for side in (0, 1):
+                g = f.boundary((axis, side))
+                free = [0.3 + 0.1 * d for d in range(sdim - 1)]
+                full = free[:axis] + [f.support[axis][side]] + free[axis:]
+                gfree = tuple(np.array([x]) for x in free); gfull = tuple(np.array([x]) for x in full)
+                Jf = np.asarray(f.grid_jacobian(gfull)).reshape(2, sdim); col = sdim - 1 - axis
+                attempt('%s restricted-support boundary value' % kind_, lambda: close(g.grid_eval(gfree), f.grid_eval(gfull)) and close(g.eval(*reversed(free)), f.grid_eval(gfull)))
+                attempt('%s restricted-support boundary jacobian' % kind_, lambda: close(g.grid_jacobian(gfree), np.delete(Jf, col, axis=1)) and close(g.grid_jacobian(gfree, keep_normal=True), Jf))
+uf = geometry.UserFunction(lambda x, y: (x * x + y, x * y), ((0.0, 1.0), (0.0, 2.0)))
+for axis in (0, 1):
+    for side in (0, 1):
+        gb = uf.boundary((axis, side)); t = 0.37
+        full = [t]; full.insert(axis, uf.support[axis][side])
+        attempt('UserFunction boundary', lambda: close(gb.grid_eval((np.array([t]),)), np.array(uf.f(full[1], full[0]))))
 for alpha in (0.3, 1.0, 2.5, 3.0):
     for fn in (geometry.circular_arc_3pt, geometry.circular_arc_5pt, geometry.circular_arc_7pt):
         a = fn(alpha, 2.0); X = a.grid_eval((np.linspace(0, 1, 23),))
